@@ -108,6 +108,9 @@ func runScripted(rep *Report, leanMode string, mk func() Impl, cases []Case, ora
 				}
 				seenOracle++
 				deadline := time.Now().Add(25 * time.Second)
+				if os.Getenv("VERIF_NOSHRINK") != "" {
+					deadline = time.Now()
+				}
 				small := shrink(c, keep, func(x Case) bool {
 					return !time.Now().After(deadline) && oracle(x, runGo(mk, x)) != ""
 				})
